@@ -388,6 +388,8 @@ def static_int(e) -> bool:
         return True
     if e[0] == "m":
         return TYPED_METHODS.get(e[1]) == "int"
+    if e[0] == "call":
+        return e[1] == "ilogb"  # std::ilogb returns int (and is declared so since 340b270)
     if e[0] == "bin":
         return e[1] in ("Add", "Sub", "Mult", "Mod") and static_int(e[2]) and static_int(e[3])
     if e[0] == "un":
@@ -399,13 +401,9 @@ def in_defect_exclusion(e) -> Optional[str]:
     """The inputs the `_partial` theorems exclude because the code is known to be wrong there
     (each has a `_counterexample` theorem and a listed finding).  Syntactic, independent of the table."""
     names = called(e)
-    if "round" in names:
-        return "round"
     if "remquo" in names:
         return "remquo"
     if "Div" in ops_of(e):
-        if "ilogb" in names:
-            return "ilogb-in-division"
 
         def abs_int(x) -> bool:
             if x[0] == "call":
@@ -836,7 +834,7 @@ def odd_expr(rng, names: List[str]):
 def main_cases(ctx, g) -> List[Tuple[str, str, Any]]:
     """(stream, backend, expr)"""
     names = [n for n in g["readme"] if n in REF]
-    usable = [n for n in names if n not in ("round", "remquo")]
+    usable = [n for n in names if n != "remquo"]
     backs = list(BACKENDS)
     out: List[Tuple[str, str, Any]] = []
     for n in names:
@@ -1279,7 +1277,7 @@ def shrink(ctx, r):
 def search(ctx, broken):
     """A larger sweep with the Spec on the implementation's output and the compiled values as the only judges."""
     g = getattr(ctx, "gen", None) or read_all()
-    names = [n for n in g["readme"] if n in REF and n not in ("round", "remquo")]
+    names = [n for n in g["readme"] if n in REF and n != "remquo"]
     cases = []
     for i in range(1500):
         e = random_expr(ctx.rng, names, ctx.rng.choice([1, 2, 3, 4]))
@@ -1333,13 +1331,12 @@ def replay(ctx, rep) -> int:
 
 
 THEOREMS = ["FaxVerif.C12." + t for t in [
-    "translator_complete", "documented_present", "keys_nodup", "rows_found", "namesake", "header", "return_double", "table_arith", "spec_row",
-    "return_type_faithful_partial", "return_type_faithful_counterexample", "callable_by_value_partial", "callable_by_value_counterexample",
-    "documented_accepted_partial", "documented_accepted_counterexample", "rows_reached_partial", "cfg_ok",
+    "translator_complete", "documented_present", "keys_nodup", "rows_found", "namesake", "header", "return_type_faithful", "return_type_numeric",
+    "table_arith", "spec_row", "callable_by_value_partial", "callable_by_value_counterexample",
+    "documented_accepted", "rows_reached_partial", "cfg_ok",
     "resolver_spec", "replaced_iff", "call_emitted", "includes_of_called", "usable_in_arithmetic", "scoped_faithful", "refused_only_unresolved",
-    "computes_namesake_partial", "spec_partial", "documented_plain_partial", "documented_scoped_partial", "abs_scope_partial", "documented_never_refused_partial", "documented_clean_scoped", "c12_partial",
-    "computes_namesake_counterexample_round", "computes_namesake_counterexample_remquo", "computes_namesake_counterexample_ilogb",
-    "computes_namesake_counterexample_abs_int",
+    "computes_namesake_partial", "spec_partial", "documented_plain_partial", "documented_scoped_partial", "abs_scope_partial", "documented_never_refused", "documented_clean_scoped", "c12_partial",
+    "computes_namesake_counterexample_remquo", "computes_namesake_counterexample_abs_int",
 ]]
 RULE = (
     "(a) every row of functions_to_replace as it is at run time (row Spec: namesake, header, double, arithmetic type; each row is a non-trivial case); (b) name "
